@@ -20,6 +20,9 @@ type RunCfg struct {
 	Props            map[string]bool // observations of these properties are reported
 	Differential     bool
 	PredictAdmission bool
+	// Remap lets a check claim observations of a neighbouring property (e.g. C12
+	// reports "refusal changed the queue" observations of the C02 monitor).
+	Remap func(o Obs) Obs
 	// Script, when set, replaces the generator by a fixed operation list.
 	Script []Op
 	// AfterStep lets a property-specific check add probes (may be nil).
@@ -31,6 +34,7 @@ type RunState struct {
 	Cfg    RunCfg
 	Actors []*Actor
 	Snaps  []vlib.Snapshot
+	Prev   []vlib.Snapshot
 	Lists  [][]queue.Envelope
 	Trace  []map[string]any
 	Clock  *vlib.VClock
@@ -38,12 +42,21 @@ type RunState struct {
 }
 
 func (rs *RunState) report(o Obs) {
+	if rs.Cfg.Remap != nil {
+		o = rs.Cfg.Remap(o)
+	}
 	if !rs.Cfg.Props[o.Prop] {
 		return
 	}
 	wit := map[string]any{"label": rs.Cfg.Label, "store_cfg": rs.Cfg.Store, "obs": o.Wit, "history": rs.tail(40)}
 	rs.C.Violation(o.Sig, o.What, wit)
 }
+
+// Report lets property-specific probes file an observation.
+func (rs *RunState) Report(o Obs) { rs.report(o) }
+
+// Observe refreshes the snapshot of actor i (after a probe touched the store).
+func (rs *RunState) Observe(i int) error { return rs.observe(i) }
 
 func (rs *RunState) tail(n int) []map[string]any {
 	if len(rs.Trace) <= n {
@@ -150,6 +163,7 @@ func RunSequence(c *vlib.Ctx, r *vlib.Rand, cfg RunCfg) {
 		results := make([]Res, len(rs.Actors))
 		prev := make([]vlib.Snapshot, len(rs.Actors))
 		copy(prev, rs.Snaps)
+		rs.Prev = prev
 		nowBefore := clock.NowNS()
 		for i, a := range rs.Actors {
 			if op.Kind == KAdvance && i > 0 {
